@@ -150,7 +150,18 @@ pub fn block_sizes(max: usize) -> Vec<usize> {
     v.extend([34, 66, 130, 300]);
     v.sort_unstable();
     v.dedup();
-    v.into_iter().filter(|x| *x <= max).collect()
+    let mut v: Vec<usize> = v.into_iter().filter(|x| *x <= max).collect();
+    if huge() {
+        v.extend(HUGE_SIZES);
+    }
+    v
+}
+
+/// sizes added to every stress sweep when the check escalates (KV_HUGE=1: the library source
+/// differs from the pinned text and changed code was not reached by the ordinary generators)
+pub const HUGE_SIZES: [usize; 1] = [1025];
+pub fn huge() -> bool {
+    std::env::var_os("KV_HUGE").is_some()
 }
 
 /// deterministic filler text of `n` bytes over the given ASCII letters (no two adjacent equal)
